@@ -2,6 +2,7 @@
 import ast
 import inspect
 import random
+from typing import Any
 
 from .. import astx
 from ..astx import C, N, attr, lam
@@ -482,6 +483,24 @@ def defaults_scope(ctx):
             ctx.violation("shared-lambda-object:normalised-against-the-wrong-class", f"one lambda object under e.jets().Select(..) and e.mus().Select(..): emitted {out}", {"defaults_scope": True})
     except Exception as e:
         ctx.violation(f"defaults-scope:exc:{type(e).__name__}", f"shared lambda object: {type(e).__name__}: {str(e)[:200]}", {"defaults_scope": True})
+    # a nested lambda / comprehension over a sequence whose items have NO declared type, its variable named like the typed enclosing one:
+    # inside, the name is the item - nothing is known about it, the call stays as written
+    class Ev3:
+        def energy(self, scale: float = 1.0) -> float: ...
+        def hits(self) -> Iterable: ...
+        def cells(self) -> Iterable[Any]: ...
+
+    for text in ("lambda e: e.hits().Select(lambda e: e.energy())", "lambda e: [e.energy() for e in e.hits()]", "lambda e: e.cells().Where(lambda e: e.energy() > 1).Count() + e.energy()"):
+        ctx.case("untyped-item-named-like-the-typed-outer-variable:" + text, True)
+        ctx.count("defaults-scope-cases")
+        try:
+            out = astx.unparse(DS(Ev3).Select(text).query_ast.args[1])
+        except Exception as e:
+            ctx.violation(f"defaults-scope:exc:{type(e).__name__}", f"{text}: {type(e).__name__}: {str(e)[:200]}", {"defaults_scope": True})
+            continue
+        inner = out.split("lambda e:", 2)[-1] if out.count("lambda e:") > 1 else out
+        if "e.energy(1.0)" in inner.split(").Count()")[0]:
+            ctx.violation("untyped-item:outer-class's-default-written-into-the-call", f"{text} emitted {out}: inside the nested lambda e is an item of undeclared type", {"defaults_scope": True})
     for text, must in cases:
         ctx.case("defaults-scope:" + text, True)
         ctx.count("defaults-scope-cases")
